@@ -73,6 +73,8 @@ pub trait Probe: ChipModel {
     fn op_starts(&self) -> &Vec<OpStart>;
     /// LoRa sync word registers now (SX126x: MSB<<8 | LSB; SX127x: RegSyncWord)
     fn sync_value(&self) -> u16;
+    /// SX126x: the next transaction finds a chip that runs SetRxDutyCycle in its sleep phase.
+    fn arm_duty_sleep(&mut self, _on: bool) {}
     fn prog(&self) -> u16;
     fn losses(&self) -> u32;
     fn last_loss(&self) -> &'static str;
@@ -114,6 +116,9 @@ impl Probe for Chip126x {
     }
     fn op_starts(&self) -> &Vec<OpStart> {
         &self.op_starts
+    }
+    fn arm_duty_sleep(&mut self, on: bool) {
+        self.duty_asleep_next = on;
     }
     fn sync_value(&self) -> u16 {
         (self.reg(chip126x::REG_LORA_SYNC_WORD_MSB) as u16) << 8 | self.reg(chip126x::REG_LORA_SYNC_WORD_LSB) as u16
